@@ -364,6 +364,47 @@ namespace c18x
         if(transfer.is_ghost()) { c.viol(op + ".lafem_transfer.is_ghost", "true-on-local-transfer", "{}"); return; }
       }
 
+      // ---- (t4b) converted transfers (mixed precision): convert() to <float, unsigned int>, back to the original types
+      //      and to the same types; prol / rest / trunc of the copy act like the original's (bitwise for the same-type
+      //      and round-trip copies of exactly representable..., within float rounding for the narrowed one)
+      {
+        typedef LAFEM::SparseMatrixCSR<float, unsigned int> MatF;
+        typedef LAFEM::DenseVector<float, unsigned int> VecF;
+        LAFEM::Transfer<MatF> tf; tf.convert(transfer);
+        LAFEM::Transfer<MatrixType> tsame; tsame.convert(transfer);
+        LAFEM::Transfer<MatrixType> tback; tback.convert(tf);
+        c.event(3);
+        // same-type copy: bitwise equal results for all three members
+        {
+          VectorType a1(ncd, 0.0), a2(ncd, 0.0), b1(nf, 0.0), b2(nf, 0.0), r1(ncd, 0.0), r2(ncd, 0.0);
+          transfer.trunc(df, a1); tsame.trunc(df, a2);
+          transfer.prol(b1, vc); tsame.prol(b2, vc);
+          transfer.rest(df, r1); tsame.rest(df, r2);
+          for(Index j = 0; j < ncd; ++j) if(!Mon::same_bits(a1.elements()[j], a2.elements()[j])) { c.viol(op + ".lafem_transfer.convert.trunc", "differs-from-original", vh::J().kv("dof", (unsigned long)j).kv("got", a2.elements()[j]).kv("expected", a1.elements()[j]).kv("types", "same").str()); return; }
+          for(Index i = 0; i < nf; ++i) if(!Mon::same_bits(b1.elements()[i], b2.elements()[i])) { c.viol(op + ".lafem_transfer.convert.prol", "differs-from-original", vh::J().kv("dof", (unsigned long)i).kv("types", "same").str()); return; }
+          for(Index j = 0; j < ncd; ++j) if(!Mon::same_bits(r1.elements()[j], r2.elements()[j])) { c.viol(op + ".lafem_transfer.convert.rest", "differs-from-original", vh::J().kv("dof", (unsigned long)j).kv("types", "same").str()); return; }
+        }
+        // narrowed copy (and the copy converted back from it): within the float rounding bound u_f * sum|terms| * (len+2)
+        {
+          VecF dff(nf), vcf(ncd); for(Index i = 0; i < nf; ++i) dff(i, float(d[i])); for(Index j = 0; j < ncd; ++j) vcf(j, float(v[j]));
+          VecF af(ncd, 0.0f), bf(nf, 0.0f), rf(ncd, 0.0f);
+          tf.trunc(dff, af); tf.prol(bf, vcf); tf.rest(dff, rf);
+          VectorType ab(ncd, 0.0), bb(nf, 0.0), rb(ncd, 0.0);
+          tback.trunc(df, ab); tback.prol(bb, vc); tback.rest(df, rb);
+          const LD uf = 5.97e-8L;
+          std::vector<LD> Pv, SPv, Rd, SRd; p.rP.apply(v, Pv, &SPv);
+          Rd.assign(ncd, 0); SRd.assign(ncd, 0);
+          for(Index i = 0; i < nf; ++i) for(auto& e : p.rP.r[i]) { const LD t = LD(e.second) * LD(d[i]); Rd[e.first] += t; SRd[e.first] += std::fabs(t); }
+          auto chk = [&](const char* m, Index k, double got, LD ref, LD S, std::size_t len) {
+            if(!(std::fabs(LD(got) - ref) <= 8 * uf * LD(len + 4) * S + 1e-30L))
+            { c.viol(op + ".lafem_transfer.convert." + m, "differs-from-original", vh::J().kv("dof", (unsigned long)k).kv("got", got).kv("expected", ref).kv("types", "float,u32").str()); return false; }
+            return true; };
+          for(Index j = 0; j < ncd; ++j) { if(!chk("trunc", j, double(af(j)), Td[j], STd[j], p.rT.r[j].size())) return; if(!chk("trunc", j, ab(j), Td[j], STd[j], p.rT.r[j].size())) return; }
+          for(Index i = 0; i < nf; ++i) { if(!chk("prol", i, double(bf(i)), Pv[i], SPv[i], p.rP.r[i].size())) return; if(!chk("prol", i, bb(i), Pv[i], SPv[i], p.rP.r[i].size())) return; }
+          for(Index j = 0; j < ncd; ++j) { if(!chk("rest", j, double(rf(j)), Rd[j], SRd[j], std::size_t(nf))) return; if(!chk("rest", j, rb(j), Rd[j], SRd[j], std::size_t(nf))) return; }
+        }
+      }
+
       // ---- (t5) Global::Transfer on one rank with a (non-null) default muxer and with a null muxer
       {
         typedef Global::Transfer<LAFEM::Transfer<MatrixType>, MirrorType> GT;
